@@ -452,6 +452,8 @@ def run(ctx: Ctx, tier: str) -> Result:
                          "settings change (another APP_ROOT, include / exclude list, a second agent) frames carry the short path and app-frame flag of the old ones" % (norm(n_)[:60], what_)))
     if not pw_:
         res.ok("C19.FRAME", {"the frame collector keeps nothing between hits on its class / module": len(fcs_)})
+    from .common import borrow
+    borrow(ctx, res, tier, "c02", ("C02.FRAME",), "C19.FRAME", "every frame of a stack is classified by its own file and the configuration, whatever frames stand above it")
     return res
 
 
